@@ -109,15 +109,15 @@ var bigpool = []string{"0", "-1", "9223372036854775808", "-9223372036854775809",
 	"123456789012345678901234567890123456789012345678901234567890", "-340282366920938463463374607431768211456", "7", "+5", "007", "-0"}
 
 func rbytes(r *hx.Rand) string {
-	switch r.Intn(8) {
-	case 0:
+	switch r.Intn(16) {
+	case 0, 8:
 		return ""
 	case 1:
 		return "\xff\xfe\x80"
 	case 2:
 		return "\x00"
 	case 3:
-		n := 100 + r.Intn(200)
+		n := 60 + r.Intn(80) // around 64: the length varint grows to two bytes
 		b := make([]byte, n)
 		for i := range b {
 			b[i] = byte(r.Uint64())
@@ -332,7 +332,7 @@ func modeCorr(seed uint64, n int) {
 	}
 	for i := 0; i < n; i++ {
 		pr := r.Split()
-		if i%3 == 0 {
+		if i%5 == 0 {
 			// a small compiled program
 			src, opts, feats := genProgram(pr, true)
 			_, p, err := starlark.SourceProgramOptions(&opts, "s.star", src, isPredeclared)
